@@ -161,14 +161,16 @@ def gen():
 	done = set()
 	for p in props:
 		for mech in p["anchors"].get("mechanism", []):
+			sites = []
 			for part in mech["where"].split(";"):
-				part = part.strip()
-				m = re.match(r"^(\S+?):(\d+)(?:-(\d+))?$", part)
-				if not m:
+				m0 = re.match(r"^(\S+?):([\d,\-]+)$", part.strip())
+				if not m0 or not os.path.exists(os.path.join(REPO, m0.group(1))):
 					continue
-				path, a, b = m.group(1), int(m.group(2)), int(m.group(3) or m.group(2))
-				if not os.path.exists(os.path.join(REPO, path)):
-					continue
+				for rng in m0.group(2).split(","):
+					mm = re.match(r"^(\d+)(?:-(\d+))?$", rng)
+					if mm:
+						sites.append((m0.group(1), int(mm.group(1)), int(mm.group(2) or mm.group(1))))
+			for (path, a, b) in sites:
 				if path not in maps:
 					maps[path] = line_map(path)
 				lm, new = maps[path]
@@ -265,7 +267,7 @@ def run(path, nworkers, only = None):
 	mus = [json.loads(l) for l in open(path)]
 	if only:
 		mus = [m for m in mus if m["property"] in only]
-	outpath = os.path.join(VERIF, "mut", "results.files.jsonl" if "files" in path else "results.ops2.jsonl" if "ops2" in path else "results.jsonl")
+	outpath = os.path.join(VERIF, "mut", "results.files.jsonl" if "files" in path else "results.ops2.jsonl" if "ops2" in path else "results.extra.jsonl" if "extra" in path else "results.jsonl")
 	done = set()
 	if os.path.exists(outpath):
 		done = {json.loads(l)["id"] for l in open(outpath)}
